@@ -50,7 +50,10 @@ SPEC = dict(
          '(list and item endpoints through echo.ServeHTTP), Prometheus collectors (registry Gather), a third-party pwm writer and '
          'transient injected device faults (stateless, lock-free file-layer hooks: ~3% of sensor reads, ~4% rpm reads, ~2% pwm reads and writes fail, '
          'so every error / warning path incl. failed PID-curve evaluation -> restore -> controller restart runs under the detector) '
-         'run in-process at 1 ms tick rates on 4 fans (2 hwmon, file, cmd) sharing one sensor and one PID curve, for `rounds` child '
+         'run in-process at 1 ms tick rates on 8 fans (4 hwmon, 3 file, 1 cmd) created by the real start-up glue of backend.go '
+         '(initializeSensors/Curves/Fans/FanControllers) from a configuration that selects the control algorithm in every way '
+         '(default PID x2, explicit pid, deprecated controlLoop, direct unlimited x2, direct limited x2), sharing two sensors, a PID curve '
+         'and a function curve, for `rounds` child '
          'processes of `ms` milliseconds each (seeded request mix; schedules are not reproducible). Every report is parsed (both '
          'stacks), its goroutine kinds are read off the stacks and it is mapped to a pair of table entries; a report that maps to '
          'no pair is emitted as its own case with mapped=false (= translator missed an access -> mismatch and failure). '
@@ -70,6 +73,8 @@ SPEC = dict(
         'translator tools/accesses (go/packages + go/ssa, ~900 lines Go) and tools/gen_accesses.py: its table is the object of the theorems; '
         'its completeness is exercised by the race-detector run (every report must map to a table pair)',
         'cells are named by field path / global, not by object: two objects of one type are distinguished only through may_share',
+        'a module struct type of which a package-level variable holds an instance (directly, by pointer, in a slice/map/interface) is treated as shared by all goroutines '
+        '(a constructor may hand out the package-level object to several owners); listed as notes in the header of gen/Accesses.v',
         'calls through function values are not followed except anonymous functions passed as call arguments (not to run.Group.Add); '
         'state of packages outside the module (pterm, prometheus, echo, bbolt, cmap) is not in the table',
         'Go race detector (ThreadSanitizer runtime) and the parser / stack-to-kind mapping in drv_race.go',
